@@ -179,7 +179,7 @@ def tlc_design(chk, tier, configs):
     if not r["ok"]:
         raise MachineryError("Restart.tla: %s fails on the design (full state):\n%s" % (r["violated"], r["out"][-2500:]))
     for a in ACTIONS:
-        if not r["coverage"].get(a):
+        if not (r["coverage"].get(a) or r["coverage"].get(a + "D")):      # TLC names the innermost definition (PostMortemD)
             raise MachineryError("action %s of Restart.tla never taken (vacuous run): %s" % (a, r["coverage"]))
     chk.add_tlc(r)
     # witnesses: each named deviation makes TLC find a counterexample of the invariant it is expected to break
